@@ -1,29 +1,10 @@
 //go:build verif
 
 // Overlaid into the root package of the repository (as verif_export_cache.go) by the C20 check, so that the
-// harness under cmd/verif_cache can reach the unexported cache type. Not part of /repo.
+// harness under cmd/verif_cache can reach the `Cache` builtin the way module.env hands it to every module
+// (builtins["Cache"] = builtin_cache). Nothing of the cache's representation is touched: the harness observes the
+// cache only through once(). Not part of /repo.
 package dawn
 
-import (
-	"sort"
-
-	"go.starlark.net/starlark"
-)
-
-// VerifCacheBuiltin is the `Cache` builtin every module sees (module.env: builtins["Cache"] = builtin_cache).
+// VerifCacheBuiltin is the `Cache` builtin every module sees.
 var VerifCacheBuiltin = builtin_cache
-
-// VerifCacheEntries returns a snapshot of the entries of a value made by the Cache builtin (sorted keys).
-func VerifCacheEntries(v starlark.Value) (keys []string, vals []starlark.Value) {
-	c := v.(*cache)
-	c.m.RLock()
-	defer c.m.RUnlock()
-	for k := range c.entries {
-		keys = append(keys, k)
-	}
-	sort.Strings(keys)
-	for _, k := range keys {
-		vals = append(vals, c.entries[k])
-	}
-	return keys, vals
-}
